@@ -432,6 +432,38 @@ def run(ctx):
     ctx.holds('R12m', m, None, 'no positional argument named like another parameter of its callee', construct='argument order scan',
               trivial=True)
 
+    # ---- R12p: every option is read whatever the other options are
+    ctx.rule('R12p', 'LatexNodes2Text.__init__ reads each option (`self.X = flags.pop(NAME, default)`) unconditionally, or in an '
+                     'if/else every arm of which assigns self.X: reading keep_comments only in the arm that also reads math_mode '
+                     'drops it whenever the obsolete keep_inline_math spelling is used (the module-level latex2text() always '
+                     'uses it), and every comment vanishes although keep_comments=True was given', 5)
+    ini_ = meths.get('__init__')
+    n_op = 0
+    for st_ in [x_ for x_ in ast.walk(ini_) if isinstance(x_, ast.Assign) and len(x_.targets) == 1
+                and is_self_attr(x_.targets[0]) and isinstance(x_.value, ast.Call) and call_name(x_.value) == 'pop'
+                and x_.value.args and isinstance(x_.value.args[0], ast.Constant)]:
+        n_op += 1
+        attr_ = st_.targets[0].attr
+        ifs_ = [p_ for p_ in parents(st_) if isinstance(p_, (ast.If, ast.For, ast.While, ast.Try)) and any(
+            p_ is q_ for q_ in ast.walk(ini_))]
+        okp = True
+        why_ = ''
+        for p_ in ifs_:
+            if not isinstance(p_, ast.If):
+                okp, why_ = False, 'inside a loop / try'
+                break
+            for arm in (p_.body, p_.orelse):
+                if not any(isinstance(a_, ast.Assign) and any(is_self_attr(t_, attr_) for t_ in a_.targets)
+                           for s2_ in arm for a_ in ast.walk(s2_)) and not any(
+                               isinstance(s2_, ast.Raise) for s2_ in arm):
+                    okp, why_ = False, 'the %s arm of `if %s` does not set self.%s' % (
+                        'if' if arm is p_.body else 'else', short(p_.test, 40), attr_)
+        ctx.decide('R12p', okp, m, st_, 'option %r read on every path' % st_.value.args[0].value,
+                   'the option %r is read (%s) only on some paths: %s, so there the option the caller gave is silently '
+                   'ignored' % (st_.value.args[0].value, short(st_, 60), why_), construct='__init__: option %s' % st_.value.args[0].value)
+    if n_op < 5:
+        ctx.unknown('R12p', m, ini_, 'only %d option reads found in __init__' % n_op, construct='__init__: options')
+
     # ---- R12o: content is rendered by the converter, not read off the nodes
     ctx.rule('R12o', 'latex2text turns node content into text through the converter\'s *_to_text methods only: '
                      'get_content_as_chars() skips comment nodes without asking keep_comments (and knows nothing of math_mode or '
